@@ -32,7 +32,7 @@ type propCfg struct {
 }
 
 func cfg(id string) propCfg {
-	c := propCfg{quickShards: 8, thoroughShard: 16, quickTimeout: 8 * time.Minute, thorTimeout: 40 * time.Minute}
+	c := propCfg{quickShards: 8, thoroughShard: 16, quickTimeout: 8 * time.Minute, thorTimeout: 60 * time.Minute}
 	switch id {
 	case "C18":
 		c.race = true
